@@ -46,3 +46,7 @@ claim("C15",
   "Decides totality and agreement of the front-end tables: every switch over a closed kernel enum whose default panics lists all constants (StatusCode.String, gRPC code table, Response.Status, state tables); HTTP code = status/100 is an intended code for all 30 constants; each gRPC outcome flag compares its own kind's status with the constant that denotes the outcome and that the kind's coroutine can produce; per request kind both protocols populate the same kernel request fields and a coroutine is registered; every HTTP handler path writes exactly one reply. Not decided: wire encoding, value-level equivalence of the two protocols.",
   "enum-switch exhaustiveness over go/types constants with call-site guard exclusion, flag/constant table check against statuses collected from the coroutine call graph, request-literal field-set comparison, go/cfg event-count dataflow (one reply per path)",
   "DESIGN.md §5 C15")
+claim("C03",
+  "Decides the outcome tables: the status decision of create (fresh / existing / overdue x strict x key match), complete (not found / pending before or at-after the deadline / completed x strict x key match x state) and read is extracted path by path from the control-flow graph and must equal a table written from the statement; Key.Match is true only for two non-nil equal keys; the only writes reachable from the existing-promise branches are the forced time-out group; the promise insert is ON CONFLICT DO NOTHING and the task insert of create-with-task is conditional on it in both backends; a lost guarded write retries. Not decided: retries racing with the original, histories.",
+  "CFG path enumeration into (condition atoms -> status) tables compared semantically with spec functions (forking over open atoms, assertion facts, enum exclusivity); truth-table check of Key.Match; SQL spec comparison",
+  "DESIGN.md §5 C03")
